@@ -42,3 +42,7 @@ package file
 //@   safety C19
 //@   requires fs != nil && wfFiles(fs) && -1099511627776 <= int(idx) && int(idx) <= 1099511627776
 //@   nothrow
+
+// Package-level state is written only by the package initialisers: nothing is shared
+// mutably between runtimes through globals (C20).
+//@ globals_readonly[C20]
